@@ -13,6 +13,18 @@ use serde::{Deserialize, Serialize};
 
 pub struct C03;
 
+/// Does the compiled model declare a continuous variable with a range that is not a single point
+/// and narrower than 1e-9 (relative to the bound)? Decides the class of a recorded finding.
+pub fn narrow_published_range(l: &rooc::LinearModel) -> bool {
+    crate::gen::lin::LinCase::from_rooc(l).vars.iter().any(|(_, d)| {
+        if d.is_discrete() {
+            return false;
+        }
+        let (lo, hi) = d.bounds_f64();
+        lo.is_finite() && hi.is_finite() && hi > lo && hi - lo < 1e-9 * hi.abs().max(1.0)
+    })
+}
+
 #[derive(Clone, Debug, Serialize, Deserialize)]
 pub struct Case {
     pub model: ModelCase,
@@ -190,7 +202,15 @@ impl Prop for C03 {
                     "Infeasible" => {
                         if nfeas > 0 {
                             let env = pts.iter().find(|e| m.src_feasible(e) == Some(true)).unwrap();
-                            Outcome::fail("infeasible-verdict-but-satisfying-assignment-exists", ctx(format!("{{{}}} satisfies the text", env_text(env))))
+                            // recorded finding: the compile step published a range of a continuous
+                            // variable that is not a point and narrower than 1e-9 (the propagation
+                            // converges to a point and stops at its step limit), on which the MILP
+                            // dependency answers Infeasible
+                            let class = match rooc::RoocParser::new(src.clone()).parse_and_transform(vec![], &indexmap::IndexMap::new()).ok().and_then(|model| rooc::Linearizer::linearize(model).ok()) {
+                                Some(l) if narrow_published_range(&l) => ":published-range-narrower-than-1e-9",
+                                _ => "",
+                            };
+                            Outcome::fail(format!("infeasible-verdict-but-satisfying-assignment-exists{class}"), ctx(format!("{{{}}} satisfies the text", env_text(env))))
                         } else {
                             Outcome::Pass { nontrivial: nontrivial || (m.cons.len() >= 2 && m.has_nonaffine()), labels }
                         }
